@@ -40,13 +40,16 @@ def label(tp):
 
 def build(recs):
     out = []
+    blank_style = {}  # the caller's one dictionary for every card of the style "lists no contest" (styles are commonly shared objects)
     for j, (i, cons, ph, po, tp) in enumerate(recs):
         tp = label(tp)
         votes = {c: {"A": j + 1, f"x{j}": True} for c in cons}
         if cons:
             out.append(CVR(id=i, votes=votes, phantom=ph, pool=po, tally_pool=tp))
-        else:  # a record without contests, built the way callers do: the constructor's default (shared) votes dict
+        elif len(recs) == 1:  # a record without contests, built the short way (the constructor's own default) ...
             out.append(CVR(id=i, phantom=ph, pool=po, tally_pool=tp))
+        else:  # ... or, in longer lists, from the caller's shared style dictionary
+            out.append(CVR(id=i, votes=blank_style, phantom=ph, pool=po, tally_pool=tp))
     return out
 
 
